@@ -6,6 +6,7 @@ CONSTANTS
   DelimKinds = {}
   HostDelimKinds = {}
   WithNoop = FALSE
+  WithLim = FALSE
   Codecs = {"bytes"}
   PayAlpha = {}
   MaxPay = 0
